@@ -393,13 +393,16 @@ static std::string maskIds(const std::string& s) {
   return std::regex_replace(std::regex_replace(s, err, ""), re, "$1#");
 }
 
-struct OldResult { bool had{ false }; int sid{ -1 }; std::vector<std::string> additions; };
+struct OldResult { bool had{ false }; int sid{ -1 }; std::vector<std::string> additions; std::set<std::string> additionAliases; };
 
 static OldResult snapshotResult(World& w, PictID pid) {
   OldResult r;
   if (auto* s = w.srcOf(pid); s != nullptr) {
     r.had = true; r.sid = s->id;
-    for (const auto uid : s->schema.Core()) if (!s->schema.Mods().IsTracking(uid)) r.additions.push_back(maskIds(s->schema.GetRS(uid).definition));
+    for (const auto uid : s->schema.Core()) if (!s->schema.Mods().IsTracking(uid)) {
+      r.additions.push_back(maskIds(s->schema.GetRS(uid).definition));
+      r.additionAliases.insert(s->schema.GetRS(uid).alias);
+    }
     std::sort(r.additions.begin(), r.additions.end());
   }
   return r;
@@ -435,6 +438,15 @@ static std::string execResult(World& w, PictID pid, const OldResult& old) {
   for (const auto uid : sr->schema.Core()) if (!sr->schema.Mods().IsTracking(uid)) carried.push_back(maskIds(sr->schema.GetRS(uid).definition));
   std::sort(carried.begin(), carried.end());
   if (sameSource) {
+    // NAME_ERROR marks a reference whose target has no counterpart in the new result - never a reference to another
+    // user addition, which is carried over itself (seeded change C19-5: additions translated in one pass, so a reference
+    // to an addition transferred later was marked)
+    for (const auto uid : sr->schema.Core()) if (!sr->schema.Mods().IsTracking(uid)) {
+      static const std::regex marked("([XCSADFTP][0-9]+)_ERROR");
+      const auto& def = sr->schema.GetRS(uid).definition;
+      for (auto it = std::sregex_iterator(def.begin(), def.end(), marked); it != std::sregex_iterator(); ++it)
+        if (old.additionAliases.count((*it)[1].str())) return "0:reference-to-a-carried-addition-marked-" + (*it)[0].str();
+    }
     if (carried != old.additions) {
       std::string d = "0:additions-not-carried:old=";
       for (const auto& a : old.additions) d += "[" + vh::hex(a) + "]";
@@ -663,7 +675,15 @@ struct Hist {
   void edit(VSource& s, bool addition = false) {
     beginStep(w);
     std::string what = "addition";
-    if (addition) s.schema.Emplace(CstType::term, "X1"); else what = editSchema(s.schema);
+    if (addition) {
+      // one addition over X1, or two additions the FIRST of which refers to the second (listed later)
+      const auto first = s.schema.Emplace(CstType::term, "X1");
+      if (rng.chance(1, 2)) {
+        const auto second = s.schema.Emplace(CstType::term, "X1\xE2\x88\xAAX1");
+        s.schema.SetExpressionFor(first, s.schema.GetRS(second).alias + "\\X1");
+        what = "addition-pair";
+      }
+    } else what = editSchema(s.schema);
     // a refused edit notifies nobody: the document has no pending change
     if (s.saved) out("c19 noop " + what, "ok");
     else out("c19 edit " + std::to_string(s.id) + " " + std::to_string(w.hid(s.schema.CoreHash())) + " " + what, "ok");
